@@ -18,6 +18,7 @@ func init() {
 	Register(&PropDef{ID: "C12", Run: func(c *Ctx) { runSeq(c, seqC12) }, Config: seqConfig})
 	Register(&PropDef{ID: "C05", Run: func(c *Ctx) { runSeq(c, seqC05) }, Config: seqConfig})
 	Register(&PropDef{ID: "C18", Run: func(c *Ctx) { runSeq(c, seqC18) }, Config: seqConfig})
+	Register(&PropDef{ID: "C10", Run: func(c *Ctx) { runSeq(c, seqC10) }, Config: seqConfig})
 }
 
 // seqConfig: sequential scenarios explore histories; the schedule of the
@@ -39,6 +40,7 @@ const (
 	seqC05
 	seqC12
 	seqC18
+	seqC10
 )
 
 var seqRoles = map[string]string{"alice": "admin", "bob": "user", "carol": "user", "dave": "guest", "": ""}
@@ -152,6 +154,8 @@ func genSeqOps(g *Rand, fl seqFlavour, nslots, n int, thorough bool) []SOp {
 			w = []int{3, 6, 4, 2, 4, 5, 2, 7, 3, 2, 3, 4}
 		case seqC18:
 			w = []int{3, 4, 5, 3, 3, 5, 3, 3, 2, 1, 1, 12}
+		case seqC10:
+			w = []int{2, 2, 6, 3, 8, 6, 3, 8, 5, 2, 3, 3}
 		default:
 			w = []int{2, 3, 5, 3, 6, 6, 3, 7, 5, 2, 3, 0}
 		}
@@ -169,6 +173,9 @@ func genSeqOps(g *Rand, fl seqFlavour, nslots, n int, thorough bool) []SOp {
 				continue
 			}
 			op.How = g.Weighted(3, 3, 1)
+			if fl == seqC10 && op.How == 2 {
+				op.How = 1 // with an Authorizer an unexpected message type is first of all refused
+			}
 		case "sub":
 			switch g.Weighted(6, 4, 3, 1) {
 			case 0:
@@ -314,6 +321,15 @@ func runSeq(c *Ctx, fl seqFlavour) {
 	rc := &router.RealmConfig{URI: "r1", StrictURI: strict, AllowDisclose: allowDisclose, AnonymousAuth: true, EnableMetaKill: metaKill,
 		MetaStrict: fl == seqC18 && g.Chance(1, 3),
 		Authenticators: []auth.Authenticator{&StaticAuth{Roles: seqRoles}}}
+	var authz *TableAuthz
+	if fl == seqC10 {
+		authz = &TableAuthz{Seed: c.Spec.GenSeed, DenyPerm: g.Range(100, 350), FailPerm: g.Range(0, 120), RewrPerm: g.Range(0, 250)}
+		if g.Chance(1, 6) {
+			authz.DenyPerm = 1000 // everything refused: meta events must still flow
+		}
+		rc.Authorizer = authz
+		rc.RequireLocalAuthz = g.Chance(1, 3)
+	}
 	w, err := NewWorld(c.S, &router.Config{RealmConfigs: []*router.RealmConfig{rc}})
 	if err != nil {
 		c.Res.Tooling = "NewRouter: " + err.Error()
@@ -336,6 +352,10 @@ func runSeq(c *Ctx, fl seqFlavour) {
 		q.IgnoreMeta = true
 	}
 	q.MetaKill = metaKill
+	if authz != nil {
+		q.Authz = authz
+		q.LocalAuthz = rc.RequireLocalAuthz
+	}
 	var baseline string
 	if fl == seqC05 {
 		q.IgnoreMeta = true
